@@ -292,7 +292,7 @@ def r4_no_panic(ctx):
     ctx.rule('C15.R4', 'P3 audit: no body under pavex::request::{path,query,body} calls a panic entry point, unwrap/expect, slices a str by a byte range, or contains an '
              'arithmetic/bounds Assert terminator; positive control: the same query finds such sites elsewhere in pavex.')
     mods = (RQ + 'path::', RQ + 'query::', RQ + 'body::', '<' + RQ + 'path::', '<' + RQ + 'query::', '<' + RQ + 'body::')
-    inside, outside, bodies = 0, 0, 0
+    inside, outside, bodies, discharged = 0, 0, 0, 0
     for b in ctx.fb.bodies(CR):
         if b.is_promoted:
             continue
@@ -308,9 +308,17 @@ def r4_no_panic(ctx):
                     t['aty'][0].replace('&mut ', '&') in ('&str', '&alloc::string::String') and len(t['aty']) > 1 and 'Range' in t['aty'][1]:
                 # `s[a..b]` panics when a bound is not on a char boundary (or out of range)
                 sites.append((bb, t, 'str-slice-by-byte-range'))
+        adefs = None
         for bb in b.live_blocks():
             t = b.term(bb)
             if t and t['k'] == 'assert':
+                if target and t.get('msg') == 'Overflow':
+                    # a checked subtraction right after `if small > big { return Err }` cannot underflow (pvx.arith)
+                    from ..arith import sub_is_guarded
+                    adefs = adefs or Defs(b)
+                    if sub_is_guarded(b, adefs, bb):
+                        discharged += 1
+                        continue
                 sites.append((bb, t, 'Assert(%s)' % t['msg']))
         for bb, t, c in sites:
             if target:
@@ -320,6 +328,7 @@ def r4_no_panic(ctx):
             else:
                 outside += 1
     ctx.count('extractor_bodies_scanned', bodies)
+    ctx.count('checked_subtractions_discharged_by_a_dominating_comparison', discharged)
     ctx.count('panic_sites_elsewhere_in_pavex', outside)
     ctx.ob('C15.R4', 'no-panic-sites', inside == 0, '', '%d panic/unwrap/assert site(s) in %d extractor bodies' % (inside, bodies))
     ctx.floor('C15.R4', 'extractor bodies scanned', bodies, 100)
